@@ -10,7 +10,10 @@ correspondence: the unmodified dsh.c under the controlled scheduler (harness/sch
 oracle:         spec-level monitors on the observable events of the real run (vlib/sigcheck.py:offenders); the real
                 dsh.c on REAL threads with REAL signals, a gated transport and a settable clock
                 (harness/sigthread_harness.c, vlib/sigthread.py: _mask_signals, the sigwait set, raise(SIGSTOP), errx,
-                pthread_cancel/join decided by behaviour, no wall-clock race); the real execcmd.c/pipecmd.c on children
+                pthread_cancel/join decided by behaviour, no wall-clock race; the same scenarios with SIGINT/SIGTSTP
+                inherited ignored / blocked / both, batch and interactive); the real execcmd.c/pipecmd.c on real children:
+                the forwarded signal must ARRIVE at the command (observed in the command) wherever its just-forked child is
+                between fork() and exec - before/after the dup2()s, inside closeall(), before/after setsid(), before execvp()
 generators:     vlib/sigphase.py (situations reached by steering the scheduler: a host in each phase, mutex holders, the
                 INTR_TIME boundary, the shutdown tail; every pair of positions; interrupts during time-outs),
                 vlib/sigrun.py (corpus, DFS, every position, random)
@@ -37,8 +40,12 @@ MANIFEST = dict(
          "canceled host is connected afterwards, never a deadlock).  Deterministic in every run: a host in each of the six "
          "phases at once with the watchdog or a worker holding either mutex, 0..3 s on the clock between ^C and a second "
          "^C / ^Z (1 s = INTR_TIME exactly), signals around every step of the shutdown tail, every pair of positions on "
-         "two tiny configurations, a signal at every position while the watchdog times hosts out, and 13 scenarios on "
-         "real threads with real signals (gated transport, settable clock).",
+         "two tiny configurations, a signal at every position while the watchdog times hosts out, 13 scenarios on "
+         "real threads with real signals (gated transport, settable clock) plus 15 of them again with SIGINT/SIGTSTP "
+         "inherited ignored, blocked or both, and the module's signal function called while the just-forked child of the "
+         "command is stopped before each of its libc calls between fork() and exec (the signal must arrive at the command).  "
+         "dsh()'s _mask_signals(SIG_BLOCK)/(SIG_UNBLOCK) are steps of the accepted traces (wrapper Dsh/SignalsMask.lean: "
+         "the dispatcher acts only in between).",
     design_ref="DESIGN.md section 5 C20 (and C03/C04), appendix A.1",
     note="Lean 4.33 kernel; axioms propext/Classical.choice/Quot.sound at most; protocol-level model tied to dsh.c by "
          "trace acceptance; pthread/sigwait semantics modelled, not verified; scheduler granularity = wrapped calls "
@@ -46,7 +53,9 @@ MANIFEST = dict(
          "delivery inside libc is outside the model; stdio is modelled by per-call atomicity (product model "
          "Dsh/SignalsOutput.lean: an abort tears at most the record in progress, which is the last thing in the stream; "
          "glibc's lock-free flush at exit() duplicating buffered bytes is not modelled); the LTS accepts both locking "
-         "disciplines of the listing (print under thd_mutex / copy, unlock, print); deferred "
+         "disciplines of the listing (print under thd_mutex / copy, unlock, print); the canceled count may be printed inside or after "
+         "the critical section; which signals _mask_signals blocks and sigwait waits for is decided on real threads under "
+         "every inherited disposition/mask (Linux queues a blocked signal even when it is ignored: modelled so); deferred "
          "pthread_cancel of the signals thread and the join before dsh() returns are in the model (St.scan, SAct.die; "
          "signals_thread_ended_before_return, progress_needs_only_sigwait); forwarding below dsh.c is checked on the "
          "real execcmd.c/pipecmd.c with real children (harness/execsig_harness.c); the form of the worker's first state write (blind as pinned = finding "
